@@ -174,7 +174,14 @@ Inductive case :=
 (* look-ups of the same fresh names by several goroutines behind a barrier, then the same
    names again sequentially: the distinct (name, logger) pairs seen, and for every distinct
    logger whether options applied through the registry reached it *)
-| CRegApply (obs : list (Z * Z)) (reached : list bool).
+| CRegApply (obs : list (Z * Z)) (reached : list bool)
+(* the nested mode after FAULTS (streams that ended on an error path: tampered document, consumer
+   closing the pipe early, failing source, ...): class of every fault run against its own solo
+   run, then as CNest *)
+| CNestF (faults : list cls) (ps : list pdesc) (nests : list nest) (obs : list cls)
+(* byteslicepool: a sequence of Get / append / Resize / Put by several users of one pool and what
+   the acting user saw through its slice after each *)
+| CPoolSeq (ops : list pop) (seen : list (list N)).
 
 Definition pool_model (stale data : list N) : Z * list N :=
   let ev := [BGet 0 (length stale) None; BAppend 0 stale; BPut 0; BGet 1 0 (Some 0)] in
@@ -195,6 +202,37 @@ Definition oracle (c : case) : bool :=
   | CPool stale data got_len seen => (got_len =? 0)%Z && eqb_listN seen data
   | CReg obs => same_name_same_logger obs
   | CRegApply obs reached => same_name_same_logger obs && forallb (fun b : bool => b) reached
+  | CNestF faults _ _ obs => all_same_b (faults ++ obs)
+  | CPoolSeq ops seen => pool_seq_ok_b [] ops seen
+  end.
+
+(* the pool model on a recorded sequence: what the acting user sees after each operation
+   (C08_byteslicepool_no_carry: independent of sync.Pool's choices as long as nobody shrinks) *)
+Definition bev_of (o : pop) : bevent :=
+  match o with
+  | PGet u c => BGet (Z.to_nat u) (Z.to_nat c) None
+  | PAppend u d => BAppend (Z.to_nat u) d
+  | PResize u n => BResize (Z.to_nat u) (Z.to_nat n)
+  | PPut u => BPut (Z.to_nat u)
+  end.
+
+Fixpoint pool_seq_model (pre : list bevent) (ops : list pop) : list (list N) * bool :=
+  match ops with
+  | [] => ([], false)
+  | o :: ops' =>
+      let u := Z.to_nat (user_of o) in
+      let before := appended u pre [] in
+      let pre' := pre ++ [bev_of o] in
+      let shrink := match o with PResize _ n => (Z.to_nat n <? length before) | _ => false end in
+      let '(rest, sh) := pool_seq_model pre' ops' in
+      (appended u pre' [] :: rest, shrink || sh)
+  end.
+
+Fixpoint eqb_seen (a b : list (list N)) : bool :=
+  match a, b with
+  | [], [] => true
+  | x :: a', y :: b' => eqb_listN x y && eqb_seen a' b'
+  | _, _ => false
   end.
 
 (* the registry model (sequential get-or-create, justified for every interleaving by
@@ -211,6 +249,10 @@ Definition model_agrees (v : variant) (c : case) : bool :=
       let '(l, vis) := pool_model stale data in (l =? got_len)%Z && eqb_listN vis seen
   | CReg obs => eqb_listZ (reg_model (map fst obs)) (map snd obs)
   | CRegApply obs _ => eqb_listZ (reg_model (map fst obs)) (map snd obs)
+  | CNestF _ ps nests obs => eqb_clss (predict v ps nests) obs
+  | CPoolSeq ops seen =>
+      let '(m, shrink) := pool_seq_model [] ops in
+      shrink || eqb_seen m seen     (* after a shrink what is seen depends on sync.Pool's choice *)
   end.
 
 (* 0 = agree and oracle holds; 1 = model and implementation differ; 2 = the implementation's
@@ -231,4 +273,9 @@ Example witness_fixed : predict Fixed witness_ps witness_nests = [Same; Same].
 Proof. vm_compute. reflexivity. Qed.
 
 Example reg_model_ex : reg_model [5; 7; 5; 9; 7]%Z = [0; 1; 0; 2; 1]%Z.
+Proof. vm_compute. reflexivity. Qed.
+
+Example pool_seq_ex :
+  pool_seq_model [] [PGet 1 8; PAppend 1 [17; 18]%N; PPut 1; PGet 2 0; PResize 2 3; PAppend 2 [33]%N]
+  = ([[]; [17; 18]; []; []; [0; 0; 0]; [0; 0; 0; 33]]%N, false).
 Proof. vm_compute. reflexivity. Qed.
